@@ -491,6 +491,7 @@ func (x *Exec) initialState() *State {
 	st := &State{heap: map[string]*Term{}}
 	top0 := mkVar("top0", SInt)
 	st.top = top0
+	x.cur = st
 	x.assumeIn(st, mkCmp(">=", top0, mkInt(0)))
 	fr := &Frame{fn: x.fn, locals: map[*ssa.Alloc]Value{}, vals: map[ssa.Value]Value{}, block: x.fn.Blocks[0], entered: map[*ssa.BasicBlock]bool{}}
 	st.frames = []*Frame{fr}
@@ -533,6 +534,17 @@ func (x *Exec) atReturn(st *State, res []Value, in *ssa.Return) {
 		if i < len(res) {
 			env.bind(n, res[i], sig.Results().At(i).Type())
 		}
+	}
+	for _, gs := range x.spec.GhostSets {
+		g := x.sp.Ghosts[gs.Ghost]
+		if g == nil {
+			panic("ghostset: unknown ghost " + gs.Ghost)
+		}
+		av, _ := x.eval(env, gs.Arg)
+		vv, _ := x.eval(env, gs.Val)
+		name := "G|" + gs.Ghost
+		h := st.getHeap(name, arrSort(SInt, x.ghostSort(g)))
+		st.heap[name] = mkStore(h, x.valRef(st, av), x.asPlainPure(vv).(*Term))
 	}
 	for i, c := range x.spec.Ensures {
 		label := c.Label
@@ -633,6 +645,13 @@ func (x *Exec) frameCheck(st *State, env *Env, pos token.Pos) {
 	old := env.atOld()
 	for _, l := range x.spec.Modifies {
 		switch {
+		case l.Cell != nil:
+			v, t := x.eval(old, l.Cell)
+			et := derefType(t)
+			for _, c := range comps(et) {
+				n := cellHeapName(et, c.Suffix)
+				allowedRefs[n] = append(allowedRefs[n], x.valRef(st, v))
+			}
 		case l.Ghost != "":
 			allowedWhole["G|"+l.Ghost] = true
 		case l.Type != "":
@@ -779,6 +798,7 @@ func (x *Exec) specAxioms() []*Term {
 		body := x.evalBool(env, a.Body)
 		out = append(out, mkForall(bound, mkImplies(mkAnd(guards...), body)))
 	}
+	out = append(out, x.recSpecAxioms()...)
 	return out
 }
 
@@ -797,6 +817,7 @@ func verifyLemma(w *World, sp *Specs, l *LemmaSpec) *FuncResult {
 	x.variants = map[string][]variantAt{}
 	st := &State{heap: map[string]*Term{}}
 	st.top = mkVar("top0", SInt)
+	x.cur = st
 	env := x.newEnv(st, l.PkgPath)
 	for _, p := range l.Params {
 		t := env.resolveType(p.Type)
